@@ -1098,8 +1098,9 @@ Definition k6e_op : Op := OEnable 1 7 k6_top 42 true.
 
 Lemma k6e_reachK1S : ReachK1S k1_cfg 100000 k6e_s.
 Proof.
-  change k6e_s with (fst (step k1_cfg k1u_s (ODisable 1 7 42 true))).
-  apply ReachK1S_step; [exact k1u_reachK1S|exact I|exact I].
+  unfold k6e_s, run. cbn [fold_left].
+  do 3 (apply ReachK1S_step; [|exact I|first [exact I|unfold k1_in, k1_bound; zc]]).
+  apply ReachK1S_init; [lia|lia|wf_funding_tac|reflexivity].
 Qed.
 
 Theorem C20_K6_enable_refuted :
